@@ -49,6 +49,7 @@ def lift_forms(p):
     return {("sub", p, ("tuple", (("ext", "numpy.newaxis"), sl))), ("sub", p, ("tuple", (("const", None), sl))),
             ("sub", p, ("ext", "numpy.newaxis")), ("sub", p, ("const", None)),
             ("call", ("ext", "numpy.atleast_2d"), (p,), ()), ("call", ("ext", "numpy.expand_dims"), (p, ("const", 0)), ()),
+            ("call", ("ext", "numpy.expand_dims"), (p,), (("axis", ("const", 0)),)),
             ("call", ("attr", p, "reshape"), (("const", 1), ("const", -1)), ())}
 
 
@@ -447,6 +448,15 @@ class C09:
             t = unwrap(resolve(t, R))
             if t in R:
                 return R[t]
+            if t[0] == "call" and t[1] == ("ext", "numpy.arange"):
+                return 1
+            if t[0] == "cmp":
+                ra_, rb_ = rank(t[2], R), rank(t[3], R)
+                return None if ra_ is None or rb_ is None else max(ra_, rb_)  # broadcasting
+            if t[0] == "sub" and t[2][0] == "tuple" and any(x in (("ext", "numpy.newaxis"), ("const", None)) for x in t[2][1]) \
+                    and all(x in (("ext", "numpy.newaxis"), ("const", None)) or x[0] == "slice" for x in t[2][1]):
+                rb_ = rank(t[1], R)
+                return None if rb_ is None else rb_ + sum(1 for x in t[2][1] if x[0] != "slice")
             if t[0] == "sub":
                 if t[1][0] == "call" and t[1][1] == ("ext", "numpy.eye"):
                     r = rank(t[2], R)
@@ -490,13 +500,24 @@ class C09:
         R1 = {YT: 1, YS: 2}
         t1, s1 = resolve(yt, R1), resolve(ysc, R1)
         ok1 = t1[0] == "sub" and t1[1][0] == "call" and t1[1][1] == ("ext", "numpy.eye") and len(t1[1][2]) == 1
+        n = t1[1][2][0] if ok1 else None
+        if not ok1 and t1[0] == "call" and t1[1] == ("ext", "numpy.zeros") and t1[2] and t1[2][0][0] == "tuple" and len(t1[2][0][1]) == 2:
+            # the indicator matrix filled by hand: zeros((rows, width)) with [arange(rows), classes] set to 1
+            for e_ in s.events:
+                if e_.kind == "store" and e_.term[1][0] == "sub" and resolve(e_.term[1][1], R1) == t1 and e_.term[2] in (("const", 1), ("const", 1.0)):
+                    ix = e_.term[1][2]
+                    if ix[0] == "tuple" and len(ix[1]) == 2 and ix[1][0][0] == "call" and ix[1][0][1] == ("ext", "numpy.arange") \
+                            and unwrap(resolve(ix[1][1], R1))[0] == "sub" and unwrap(unwrap(resolve(ix[1][1], R1))[1]) == YT:
+                        ok1, n = True, t1[2][0][1][1]
         if ok1:
-            n = t1[1][2][0]
             okn = n[0] == "sub" and n[2] in (("const", 1), ("const", -1)) and n[1][0] == "attr" and n[1][2] == "shape" and unwrap(n[1][1]) in (YS, s1)
             if not okn:
                 problems.append(f"class indices are expanded to one-hot rows of width {show(n)[:50]} instead of the number of score columns (y_score.shape[1])")
         elif any(x[0] == "ite" for x in walk(t1)):
             ctx.undec("R09.3", site, f"cannot decide the branch taken for one-dimensional class indices: {show(t1)[:80]}")
+        elif not any(x[0] == "sub" and x[2][0] in ("invert", "not") for x in walk(s1)) and not any(x[0] == "ite" for x in walk(s1)):
+            problems.append("with one-dimensional class indices the unlabelled (NaN) items are not removed from the scores: the branch that "
+                            f"filters them is not taken (scores passed on as {show(s1)[:50]})")
         else:
             problems.append(f"one-dimensional class indices are passed on as {show(t1)[:60]} instead of one-hot rows (np.eye(num_classes)[y_true])")
         if problems:
@@ -549,7 +570,12 @@ class C09:
                             return any(cnds for _, _, cnds in cp[3]) or any(filtered(it_) for _, it_, _ in cp[3] if it_[0] == "comp")
                         fl = [cp for cp in comps if filtered(cp)]
                         site = f"{m.relpath}:{s.node.lineno} {name}"
-                        if fl and len(fl) != len(comps):
+                        # lists drawn from the same generators (same iterables, same filters) have the same rows, filtered or not
+                        from .c04 import alpha
+                        from .evalflow import rows_of
+                        item_lists = [cp for cp in comps if cp[3][0][1][0] != "global"]  # (lists over a metric table are not lists of items)
+                        same_rows = len({rows_of(cp) for cp in item_lists}) <= 1
+                        if fl and len(fl) != len(comps) and not same_rows:
                             ctx.bad("R09.6", m.relpath, name, f"{show(fl[0])[:70]}",
                                     f"{name}: one of the result lists is built with a filter (`{show(fl[0])[:90]}`) and another is not: the truth / "
                                     f"score rows no longer correspond one-to-one to the evaluated items", s.node.lineno)
@@ -804,9 +830,9 @@ def run(ctx: Ctx):
     ctx.rule("R09.1", "every (term, function) row agrees; terms distinct within a table", 16)
     ctx.rule("R09.2", "metric terms have pairwise distinct labels and names", 8)
     ctx.rule("R09.3", "wrappers delegate to the named scikit-learn function with the specified 'none' handling", 13)
-    ctx.rule("R09.4", "every mean over a selection is guarded against emptiness", 5)
+    ctx.rule("R09.4", "every mean over a selection is guarded against emptiness", 1)
     ctx.rule("R09.5", "tasks build metric lists from their own tables, at the right level, under their own name", 18)
-    ctx.rule("R09.6", "per-item results and truth / score rows are accumulated in lock-step", 6)
+    ctx.rule("R09.6", "per-item results and truth / score rows are accumulated in lock-step", 3)
     ctx.rule("R09.8", "per-clip results are constructible: ClipEvaluation gets a match for every sound event it is handed", 4)
     ctx.rule("R09.9", "every metric / scoring function is called as f(truths, score rows) of the evaluated items (provenance typing)", 14)
     ctx.rule("R09.10", "result objects get what their fields name; no reported list stays empty; table lookups under their membership test", 14)
